@@ -128,6 +128,11 @@ M_C20(cfg, meta, pre, r, post, g) ==
         IF ShouldStore(meta, r)
         THEN Stored(r, post) \/ MayVanish(cfg, pre, EngEvent(meta, r))
         ELSE post = pre
+  \* ... "normally": the store obeys the bounds and evicts exactly as a store made now by an unsuspended
+  \* call would (not according to what the call saw before it was suspended)
+  /\ (r.ev = "fin" /\ "task" \in DOMAIN r /\ r.task # "" /\ ~r.panic /\ ShouldStore(meta, r)) =>
+        /\ P_C04(cfg, pre, EngEvent(meta, r), post, g)
+        /\ P_C05(cfg, pre, EngEvent(meta, r), post, g)
   \* ... and does not corrupt the cache: every stored key is still known to the queue (it can still be
   \* evicted), if that was so before
   /\ (r.ev = "fin" /\ "task" \in DOMAIN r /\ r.task # "" /\ ~r.panic /\ (cfg.limit # 0 \/ cfg.maxmem # 0)
